@@ -147,6 +147,7 @@ func libFor(kind, wrapperName string) string {
 const prelude = `type Bx struct { .V: i32 };
 fn (b: Bx) M(a: i32) -> i32 { return a; }
 fn take(a: i32) -> i32 { return a; }
+fn mkarr(a: i32) -> []i32 { let zz: []i32 = [a, a]; return zz; }
 fn resf(a: i32) -> str ! i32 { return a; }
 fn tref(a: &i32) -> i32 { return 1; }
 fn tmut(a: &'i32) -> i32 { return 1; }
@@ -216,6 +217,10 @@ var exprSites = []site{
 	{name: "coalesce-default", body: "let zo: i32? = none; let za := zo ?? $E;"},
 	{name: "optional-init", body: "let zo: i32? = $E;"},
 	{name: "expr-stmt", body: "$E;"},
+	// below the compiler's own functions (len / append / panic are resolved apart)
+	{name: "builtin-append-value", body: "let zd: []i32 = [1]; append(&'zd, $E);"},
+	{name: "builtin-append-value-nested", body: "let zd: []i32 = [1]; append(&'zd, take($E));"},
+	{name: "builtin-len-arg", body: "let za := len(mkarr($E));"},
 	{name: "method-body", decls: "fn (b: Bx) Body() -> i32 { return $E; }\n", closed: true},
 	{name: "result-fn-return", decls: "fn rr() -> str ! i32 { return $E; }\n", closed: true},
 	{name: "global-let", decls: "let g1: i32 = $E;\n", closed: true},
